@@ -339,7 +339,7 @@ class DatasetWorld(object):
                 else:
                     shared[d] = sp["labels"][i]
             specs.append(sp)
-        return {"op": "new", "how": "ctor", "keys": keys, "specs": specs, "form": rng.choice(["kw", "dict", "pairs"])}
+        return {"op": "new", "how": "ctor", "keys": keys, "specs": specs, "form": rng.choice(["kw", "dict", "pairs", "kw", "dict", "pairs", "ds_plus_kw", "dict_plus_kw"])}
 
     def _gen_mutation(self, rng):
         m = self.model
@@ -355,9 +355,16 @@ class DatasetWorld(object):
             choices += ["query", "query", "axes_assign", "fork_copy"]
         if keys:
             choices += ["extract"]
+        if dims:
+            choices += ["set_tol"]
         if self.extracted or getattr(self, "n_extract_gen", 0):
             choices += ["reassign", "reassign"]
         what = rng.choice(choices)
+        if what == "set_tol":
+            num = [d for d in dims if m.dims[d]["labels"] and not isinstance(m.dims[d]["labels"][0], str)]
+            if not num:
+                return self._gen_mutation(rng)
+            return {"op": "set_tol", "dim": rng.choice(num), "tol": rng.choice([0.25, 1e-3, 2.0]), "via": rng.choice(["attr", "set_axis"])}
         if what == "extract":
             self.n_extract_gen = getattr(self, "n_extract_gen", 0) + 1
             return {"op": "extract", "key": rng.choice(keys), "copy": rng.random() < 0.4}
@@ -387,7 +394,15 @@ class DatasetWorld(object):
             if free and rng.random() < 0.4:
                 n = rng.choice(free)
                 items.append([n, V.gen_labels(rng, rng.randint(max(1, self.cfg["min_len"]), self.cfg["max_len"]), self.cfg["dim_kind"].get(n))])
-            return {"op": "axes_assign", "items": items}
+            st = {"op": "axes_assign", "items": items}
+            if len(items) >= 2 and rng.random() < 0.25:
+                # the last axis does not fit: the request must fail, and whatever it did before failing must leave
+                # the dataset and its variables sharing their axes
+                d_, labs_ = items[-1]
+                if d_ in m.dims and len(labs_) >= 1:
+                    items[-1] = [d_, labs_[:-1]]
+                    st["illfit"] = True
+            return st
         if what == "fork_copy":
             return {"op": "fork_copy", "how": rng.choice(["copy", "rename_keys", "rename_axes", "set_axis"]), "continue_on": rng.choice(["copy", "original"])}
         if what == "set_raw":
@@ -744,6 +759,12 @@ class DatasetWorld(object):
                 ds = Dataset(**dict(zip(s["keys"], arrs)))
             elif s["form"] == "dict":
                 ds = Dataset(dict(zip(s["keys"], arrs)))
+            elif s["form"] in ("ds_plus_kw", "dict_plus_kw") and len(arrs) >= 2:
+                # the first variables come as a Dataset (or dict), the last one as a keyword
+                head = dict(zip(s["keys"][:-1], arrs[:-1]))
+                ds = Dataset(Dataset(head) if s["form"] == "ds_plus_kw" else head, **{s["keys"][-1]: arrs[-1]})
+            elif s["form"] in ("ds_plus_kw", "dict_plus_kw"):
+                ds = Dataset(**dict(zip(s["keys"], arrs)))
             else:
                 ds = Dataset(list(zip(s["keys"], arrs)))
         except Exception as e:
@@ -868,6 +889,18 @@ class DatasetWorld(object):
                 raise Violation("C13", "ds_accept", "ds.setdefault(%r, array) returned something else than the stored variable" % (key,))
         else:
             raise ValueError(via)
+
+    def x_set_tol(self, s):
+        """A tolerance on a dataset axis concerns label look-ups, not whether an assigned array's labels agree."""
+        d = s["dim"]
+        if d not in self.model.dims or d not in self.ds.dims:
+            raise Skip("dim")
+        if s["via"] == "attr":
+            self.ds.axes[d].tol = s["tol"]
+        else:
+            self.ds.set_axis(axis=d, tol=s["tol"])
+        self.count("c13:axis_tol_set")
+        return "ok"
 
     def x_extract(self, s):
         if s["key"] not in self.model.vars:
@@ -1105,6 +1138,32 @@ class DatasetWorld(object):
     def x_axes_assign(self, s):
         from dimarray import Axis
         m, ds = self.model, self.ds
+        if s.get("illfit"):
+            if not all(d in m.dims for d, labs in s["items"]) or len(s["items"][-1][1]) == len(m.dims[s["items"][-1][0]]["labels"]):
+                raise Skip("stale")
+            if any(len(labs) != len(m.dims[d]["labels"]) for d, labs in s["items"][:-1]):
+                raise Skip("stale")
+            users = [k for k, v in m.vars.items() if s["items"][-1][0] in v["dims"]]
+            if not users:
+                raise Skip("an axis no variable uses can take any length")
+            try:
+                ds.axes = [Axis(V.label_array(labs), d) for d, labs in s["items"]]
+                raised = None
+            except Exception as e:
+                raised = e
+            self.count("c13:axes_assign_illfit")
+            if raised is None and "C13" in self.props:
+                raise Violation("C13", "ds_axes_setitem", "ds.axes = [..., Axis of %d labels for dimension %r of length %d] was accepted" % (
+                    len(s["items"][-1][1]), s["items"][-1][0], len(m.dims[s["items"][-1][0]]["labels"])))
+            # how much of the request was carried out before it failed is not specified: the model takes the labels the
+            # dataset now shows; the invariants checked after this step then demand that every variable shows them too
+            for d, labs in s["items"]:
+                if d in ds.dims:
+                    now = py_labels(ds.axes[d].values)
+                    if not _labels_same(now, m.dims[d]["labels"]):
+                        m.relabel(d, now)
+                        m.dims[d]["attrs"] = _copy.deepcopy(dict(ds.axes[d].attrs))
+            return "rejected"
         for d, labs in s["items"]:
             if d in m.dims and len(labs) != len(m.dims[d]["labels"]):
                 raise Skip("stale")
